@@ -235,6 +235,7 @@ type rtDelivery struct {
 
 type rtRun struct {
 	mirrorBad                 []string // configs whose nested section disagrees with their slots
+	byDone                    bool     // the schedule ended by every source calling Done, not by cancelling
 	c                         *Ctx
 	nsrc                      int
 	params                    dials.Params[RC]
